@@ -45,7 +45,7 @@ Inductive rel_site (s : svstate) (t : sthread) (n k : str) : spc → Prop :=
 | rs_expire id tm : st_op t = SExpire id → st_pc t = VCbUnlock → v_theap s !! id = Some tm → tm_n tm = n → tm_k tm = k →
     v_mgrshut s = false → rel_site s t n k VCbSessRemove
 | rs_ds sid c rest : st_op t = SConnEnd sid → st_pc t = VDsUnlock c rest → cl_name c = n → cl_key c = k →
-    v_mgrshut s = false → rel_site s t n k (VDsTmRemove rest)
+    v_mgrshut s = false → rel_site s t n k (ds_next rest)
 | rs_woken sid z lt e : st_op t = SLock sid n k z lt → st_pc t = VWoken → st_cancel t = Some e →
     rel_site s t n k (VFin (SResp false (Some e))).
 (** a manager Unlock that fails: nothing changes *)
@@ -54,14 +54,14 @@ Inductive relfail_site (s : svstate) (t : sthread) (n k : str) : spc → Prop :=
 | rf_expire id tm : st_op t = SExpire id → st_pc t = VCbUnlock → v_theap s !! id = Some tm → tm_n tm = n → tm_k tm = k →
     relfail_site s t n k VCbSessRemove
 | rf_ds sid c rest : st_op t = SConnEnd sid → st_pc t = VDsUnlock c rest → cl_name c = n → cl_key c = k →
-    relfail_site s t n k (VDsTmRemove rest).
+    relfail_site s t n k (ds_next rest).
 (** TimerMap.Remove(tk): continuation if stopped / if not stopped *)
 Inductive tmrm_site (s : svstate) (t : sthread) : str → spc → spc → Prop :=
 | tr_unlock n k : st_op t = SUnlock n k → st_pc t = VTmRemove → tmrm_site s t (tkey n k) VMgrUnlock VSessRemove
 | tr_expire id tm : st_op t = SExpire id → st_pc t = VCbTmRemove → v_theap s !! id = Some tm →
     tmrm_site s t (tkey (tm_n tm) (tm_k tm)) VEnd VEnd
 | tr_ds sid c rest : st_op t = SConnEnd sid → st_pc t = VDsTmRemove (c :: rest) →
-    tmrm_site s t (tkey (cl_name c) (cl_key c)) (VDsUnlock c rest) (VDsTmRemove rest).
+    tmrm_site s t (tkey (cl_name c) (cl_key c)) (VDsUnlock c rest) (ds_next rest).
 (** sessionManager.RemoveLock(n,k) *)
 Inductive sessrm_site (s : svstate) (t : sthread) (n k : str) : spc → Prop :=
 | sr_unlock : st_op t = SUnlock n k → st_pc t = VSessRemove → sessrm_site s t n k (VFin (SResp true None))
@@ -71,9 +71,8 @@ Inductive sessrm_site (s : svstate) (t : sthread) (n k : str) : spc → Prop :=
 Inductive ds_move (cfg : svcfg) (s : svstate) (t : sthread) (sid : str) : spc → Prop :=
 | dm_flag_shut : st_pc t = VDsFlag → v_shut s = true → ds_move cfg s t sid VEnd
 | dm_flag : st_pc t = VDsFlag → v_shut s = false → ds_move cfg s t sid (if sc_noclear cfg then VDsNoClear else VDsDestroy)
-| dm_noclear_keep : st_pc t = VDsNoClear → default [] (v_sess s !! sid) ≠ [] → ds_move cfg s t sid VEnd
-| dm_noclear_go : st_pc t = VDsNoClear → default [] (v_sess s !! sid) = [] → ds_move cfg s t sid VDsDestroy
-| dm_destroy_none : st_pc t = VDsDestroy → v_sess s !! sid = None → ds_move cfg s t sid (if sc_noclear cfg then VEnd else VDsTmRemove [])
+| dm_noclear_keep : st_pc t = VDsNoClear → v_sess s !! sid ≠ Some [] → ds_move cfg s t sid VEnd
+| dm_destroy_none : st_pc t = VDsDestroy → v_sess s !! sid = None → ds_move cfg s t sid VEnd
 | dm_done : st_pc t = VDsTmRemove [] → ds_move cfg s t sid VEnd.
 
 Definition shnet_cancel (t : sthread) : sthread :=
@@ -84,8 +83,18 @@ Definition shnet_cancel (t : sthread) : sthread :=
 Definition connend_cancel (sid : str) (t : sthread) : sthread :=
   if bool_decide (op_sid (st_op t) = Some sid) && bool_decide (st_cancel t = None) && negb (is_fin (st_pc t))
   then t <| st_cancel := Some ECtxCanceled |> else t.
-Definition spawn_sessions (s : svstate) : svstate :=
-  fold_left (λ s '(sid, _), spawn (SConnEnd sid) VDsFlag s) (map_to_list (v_sess s)) s.
+(** the network stop delivers a ConnEnd for every connection in [l] *)
+Definition spawn_one (s : svstate) (sid : str) : svstate := vemit (SvConnEnd sid) (spawn (SConnEnd sid) VDsFlag s).
+Definition spawn_list (l : list str) (s : svstate) : svstate := fold_left spawn_one l s.
+Definition spawn_sessions (s : svstate) : svstate := spawn_list (open_sids (v_trace s)) s.
+(** every call still in flight has a context that has ended *)
+Definition all_cancelled (s : svstate) : Prop :=
+  ∀ tid t, v_thr s !! tid = Some t → client_op (st_op t) = true → is_fin (st_pc t) = false → st_cancel t ≠ None.
+
+Lemma ds_next_not_fin l r : ds_next l ≠ VFin r.
+Proof. by destruct l. Qed.
+Lemma ds_pending_next l c : ds_pending (ds_next l) c ↔ c ∈ l.
+Proof. destruct l; simpl; [|done]. split; [done|by intros ?%elem_of_nil]. Qed.
 Definition no_parked (s : svstate) : Prop :=
   ∀ tid t, v_thr s !! tid = Some t → st_pc t ≠ VWait ∧ st_pc t ≠ VWoken.
 
@@ -204,10 +213,12 @@ Inductive vsr (cfg : svcfg) (s : svstate) : sitem → svstate → Prop :=
 (* ---- DestroySession ---- *)
 | vsr_ds_move tid t sid pc' (Ht : v_thr s !! tid = Some t) (Hop : st_op t = SConnEnd sid) (Hmv : ds_move cfg s t sid pc') :
     vsr cfg s (VRun tid) (st_go tid t pc' s)
-| vsr_ds_destroy tid t sid l (Ht : v_thr s !! tid = Some t) (Hop : st_op t = SConnEnd sid) (Hpc : st_pc t = VDsDestroy)
+(* DestroySession's delete (pc VDsDestroy), or DestroySessionIfEmpty's check-and-delete of an empty session (pc VDsNoClear) *)
+| vsr_ds_destroy tid t sid l (Ht : v_thr s !! tid = Some t) (Hop : st_op t = SConnEnd sid)
+    (Hpc : st_pc t = VDsDestroy ∨ (st_pc t = VDsNoClear ∧ l = []))
     (Hl : v_sess s !! sid = Some l) :
     vsr cfg s (VRun tid)
-      (st_go tid t (if sc_noclear cfg then VEnd else VDsTmRemove l)
+      (st_go tid t (ds_next l)
          (s <| v_sess := delete sid (v_sess s) |>
             <| v_file := if sc_file cfg then Some (delete sid (v_sess s)) else v_file s |>
             <| v_trace := SvSessDestroy tid sid :: v_trace s |>))
@@ -216,8 +227,9 @@ Inductive vsr (cfg : svcfg) (s : svstate) : sitem → svstate → Prop :=
     vsr cfg s (VRun tid) (st_go tid t VShNet (s <| v_shut := true |>))
 (* the network stop in three kinds of micro-steps: contexts end; a ConnEnd is delivered; the closer moves on *)
 | vsr_sh_cancel : vsr cfg s (VTick 0) (s <| v_thr := shnet_cancel <$> v_thr s |>)
-| vsr_sh_spawn sid (Hsh : v_shut s = true) :
-    vsr cfg s (VTick 0) (s <| v_thr := <[v_next s := SThread (SConnEnd sid) VDsFlag None]> (v_thr s) |> <| v_next := S (v_next s) |>)
+| vsr_sh_spawn sid (Hsh : v_shut s = true) (Hcn : all_cancelled s) :
+    vsr cfg s (VConnEnd sid) (s <| v_thr := <[v_next s := SThread (SConnEnd sid) VDsFlag None]> (v_thr s) |> <| v_next := S (v_next s) |>
+                                <| v_trace := SvConnEnd sid :: v_trace s |>)
 | vsr_sh_net tid t (Ht : v_thr s !! tid = Some t) (Hop : st_op t = SShutdown) (Hpc : st_pc t = VShNet) :
     vsr cfg s (VRun tid) (st_go tid t VShTimers s)
 | vsr_sh_timers tid t (Ht : v_thr s !! tid = Some t) (Hop : st_op t = SShutdown) (Hpc : st_pc t = VShTimers) :
@@ -333,10 +345,10 @@ Proof.
   destruct (IH Hl) as (x & ? & ?). exists x; split; [by right|done].
 Qed.
 
-Lemma spawn_fold_thr (l : list (str * list clock)) s tid :
-  (tid < v_next s)%nat → v_thr (fold_left (λ s '(sid, _), spawn (SConnEnd sid) VDsFlag s) l s) !! tid = v_thr s !! tid.
+Lemma spawn_fold_thr (l : list str) s tid :
+  (tid < v_next s)%nat → v_thr (spawn_list l s) !! tid = v_thr s !! tid.
 Proof.
-  revert s; induction l as [|[sid ?] l IH]; intros s Hlt; simpl; [done|].
+  unfold spawn_list. revert s; induction l as [|sid l IH]; intros s Hlt; simpl; [done|].
   rewrite IH by (simpl; lia). simpl. rewrite lookup_insert_ne by lia. done.
 Qed.
 
@@ -448,28 +460,29 @@ Proof.
       * eapply vsr_ds_move; eauto. by constructor.
     + (* VDsNoClear *)
       apply vf_one.
-      case_bool_decide as He; simpl; rewrite (vset_pc_go _ t) by done; eapply vsr_ds_move; eauto.
-      * by apply dm_noclear_go. 
-      * by apply dm_noclear_keep.
+      destruct (v_sess s !! sid) as [[|c l]|] eqn:Hl.
+      * unfold sess_destroy. rewrite Hl, vsave_eq. simpl. rewrite (vset_pc_go _ t) by done.
+        eapply vsr_eq; [|eapply (vsr_ds_destroy _ _ tid t sid []); eauto]. reflexivity.
+      * rewrite (vset_pc_go _ t) by done. eapply vsr_ds_move; eauto. apply dm_noclear_keep; [done|]. by rewrite Hl.
+      * rewrite (vset_pc_go _ t) by done. eapply vsr_ds_move; eauto. apply dm_noclear_keep; [done|]. by rewrite Hl.
     + (* VDsDestroy *)
       apply vf_one.
       unfold sess_destroy. destruct (v_sess s !! sid) as [l|] eqn:Hl.
       * rewrite vsave_eq.
-        destruct (sc_noclear cfg) eqn:Hnc; rewrite (vset_pc_go _ t) by done;
-          (eapply vsr_eq; [|eapply vsr_ds_destroy; eauto]); rewrite Hnc; reflexivity.
-      * destruct (sc_noclear cfg) eqn:Hnc; rewrite (vset_pc_go _ t) by done;
-          (eapply vsr_eq; [|eapply vsr_ds_move; eauto; by apply dm_destroy_none]); rewrite Hnc; reflexivity.
+        rewrite (vset_pc_go _ t) by (try done; apply ds_next_not_fin).
+        eapply vsr_eq; [|eapply vsr_ds_destroy; eauto]. reflexivity.
+      * simpl. rewrite (vset_pc_go _ t) by done. eapply vsr_ds_move; eauto. by apply dm_destroy_none.
     + (* VDsTmRemove *)
       apply vf_one.
       destruct todo as [|c rest].
       * rewrite (vset_pc_go _ t) by done. eapply vsr_ds_move; eauto. by constructor.
-      * apply (tmrm_ok cfg s tid t _ (VDsUnlock c rest) (VDsTmRemove rest) I Ht); [by econstructor|done|done].
+      * apply (tmrm_ok cfg s tid t _ (VDsUnlock c rest) (ds_next rest) I Ht); [by econstructor|done|apply ds_next_not_fin].
     + (* VDsUnlock *)
       apply vf_one.
       destruct (mgr_unlock_cases s tid (cl_name c) (cl_key c)) as [(e & -> & Hwhy)|(a & Hms & Ha & Hk & ->)]; simpl.
-      * rewrite (vset_pc_go _ t) by done. eapply vsr_relfail; eauto. by econstructor.
-      * destruct (release_ok cfg s tid t (cl_name c) (cl_key c) a (VDsTmRemove todo) I Ht) as [Hthr Hv]; [by econstructor|done|done|].
-        rewrite (vset_pc_go _ t) by done. exact Hv.
+      * rewrite (vset_pc_go _ t) by (try done; apply ds_next_not_fin). eapply vsr_relfail; eauto. by econstructor.
+      * destruct (release_ok cfg s tid t (cl_name c) (cl_key c) a (ds_next todo) I Ht) as [Hthr Hv]; [by econstructor|done|done|].
+        rewrite (vset_pc_go _ t) by (try done; apply ds_next_not_fin). exact Hv.
     + (* VShFlag *)
       apply vf_one.
       rewrite (vset_pc_go _ t) by done. eapply vsr_sh_flag; eauto.
